@@ -1070,9 +1070,19 @@ class Interp:
                 ci = self.p.classes.get(c[2:])
                 if ci is not None:
                     f = self.p.find_method(ci, name)
-                    if f is not None:
+                    if f is not None and not self._is_abstract(f):
                         out.append((ci, f))
         return out
+
+    @staticmethod
+    def _is_abstract(f):
+        """an abstract method says nothing about what the concrete object does"""
+        for d in f.node.decorator_list:
+            if (isinstance(d, ast.Name) and d.id == "abstractmethod") or (
+                    isinstance(d, ast.Attribute) and d.attr == "abstractmethod"):
+                return True
+        body = [st for st in f.node.body if not (isinstance(st, ast.Expr) and isinstance(st.value, ast.Constant))]
+        return all(isinstance(st, (ast.Pass, ast.Raise)) for st in body) if body else True
 
     def e_Subscript(self, e, frame):
         base = self.eval(e.value, frame)
